@@ -42,9 +42,11 @@ TypeTok    == {"int", "float", "string", "bool", "any"}
 LiteralTok == {"0", "1", "1.5", "\"s\"", "()"}
 IdentTok   == {"x", "f"}
 CommentTok == {"//", "/*", "*/"}
+\* characters that are no tokens of the language at all (a text may begin with anything, e.g. an interpreter directive)
+ForeignTok == {"#", "#!", "`", "'", "§"}
 
 Tokens == InfixTok \cup AssignTok \cup PostfixTok \cup PrefixTok \cup PunctTok \cup BracketTok
-          \cup KeywordTok \cup TypeTok \cup LiteralTok \cup IdentTok \cup CommentTok
+          \cup KeywordTok \cup TypeTok \cup LiteralTok \cup IdentTok \cup CommentTok \cup ForeignTok
 
 \* reduced alphabet: one representative of each family of interchangeable tokens
 CoreTokens == Tokens \ ({"-=", "*=", "/=", "%=", "<<=", ">>=", "&=", "|=", "^="}
